@@ -408,3 +408,155 @@ theorem run_complete {data : List Int} (s e : Nat) (hse : s < e) (hen : e ≤ da
     · omega
 
 end TV.Grouping
+
+namespace TV.Grouping
+open TV
+
+/-! ### wrap-around without filtering -/
+
+theorem consec_head? : ∀ (a b : Nat) (t : List Nat), (consec (a :: b :: t)).head? = some (a, b) := by
+  intro a b t; simp [consec]
+
+theorem consec_getLast_snd : ∀ (l : List Nat) (h : consec l ≠ []),
+    ((consec l).getLast h).2 = l.getLast (by intro e; subst e; simp [consec] at h)
+  | [], h => by simp [consec] at h
+  | [a], h => by simp [consec] at h
+  | [a, b], _ => by simp [consec]
+  | a :: b :: c :: t, _ => by
+    have ih := consec_getLast_snd (b :: c :: t) (by simp [consec])
+    have e : consec (a :: b :: c :: t) = (a, b) :: consec (b :: c :: t) := by simp [consec]
+    simp only [e]
+    rw [List.getLast_cons (by simp [consec]), ih]
+    simp
+
+theorem consec_infl_ne_nil (data : List Int) : consec (infl data) ≠ [] := by
+  unfold infl
+  cases h : changePoints data ++ [data.length] with
+  | nil => simp at h
+  | cons b t => simp [consec]
+
+theorem consec_infl_head (data : List Int) : ∃ e, (consec (infl data)).head? = some (0, e) := by
+  unfold infl
+  cases h : changePoints data ++ [data.length] with
+  | nil => simp at h
+  | cons b t => exact ⟨b, consec_head? 0 b t⟩
+
+theorem consec_infl_getLast (data : List Int) :
+    ((consec (infl data)).getLast (consec_infl_ne_nil data)).2 = data.length := by
+  rw [consec_getLast_snd]; exact infl_getLast data
+
+theorem rangeFromTo_head? {s e : Nat} (h : s < e) : (rangeFromTo s e).head? = some s := by
+  rw [rangeFromTo_eq]
+  have : e - s = (e - s - 1) + 1 := by omega
+  rw [this, List.range'_succ]; rfl
+
+theorem rangeFromTo_getLast? {s e : Nat} (h : s < e) : (rangeFromTo s e).getLast? = some (e - 1) := by
+  rw [rangeFromTo_eq]
+  have : e - s = (e - s - 1) + 1 := by omega
+  rw [this, List.range'_concat, List.getLast?_concat]
+  congr 1; omega
+
+/-- the runs (as index lists) -/
+def runsOf (data : List Int) : List (List Nat) := (consec (infl data)).map (fun se => rangeFromTo se.1 se.2)
+
+theorem runsOf_head (data : List Int) (hd : data ≠ []) :
+    ∃ e0, 0 < e0 ∧ (runsOf data).head? = some (rangeFromTo 0 e0) := by
+  obtain ⟨e, he⟩ := consec_infl_head data
+  have hmem : (0, e) ∈ consec (infl data) := List.mem_of_mem_head? he
+  refine ⟨e, (run_bounds hd hmem).1, ?_⟩
+  unfold runsOf
+  rw [List.head?_map, he]; rfl
+
+theorem runsOf_last (data : List Int) (hd : data ≠ []) :
+    ∃ s, s < data.length ∧ (runsOf data).getLast? = some (rangeFromTo s data.length) := by
+  have hne := consec_infl_ne_nil data
+  have hl := consec_infl_getLast data
+  have hmem := List.getLast_mem hne
+  have hb := (run_bounds hd hmem).1
+  refine ⟨((consec (infl data)).getLast hne).1, by rw [hl] at hb; exact hb, ?_⟩
+  unfold runsOf
+  rw [List.getLast?_map, List.getLast?_eq_getLast hne]
+  simp only [Option.map_some, hl]
+
+theorem runsOf_one (data : List Int) (hd : data ≠ []) (h : (runsOf data).length = 1) :
+    runsOf data = [rangeFromTo 0 data.length] := by
+  obtain ⟨e0, _, h0⟩ := runsOf_head data hd
+  obtain ⟨s, _, hl⟩ := runsOf_last data hd
+  obtain ⟨r, hr⟩ := List.length_eq_one_iff.mp h
+  rw [hr] at h0 hl ⊢
+  simp only [List.head?_cons, List.getLast?_singleton, Option.some.injEq] at h0 hl
+  -- r = range 0 e0 = range s n : compare first elements and lengths
+  have e1 : r.head? = some 0 := by rw [h0]; exact rangeFromTo_head? (by assumption)
+  have e2 : r.head? = some s := by rw [hl]; exact rangeFromTo_head? (by assumption)
+  have : s = 0 := by rw [e1] at e2; exact (Option.some.inj e2).symm
+  rw [hl, this]
+
+theorem pairs_eq (data : List Int) : ((0 :: (List.filter (fun i => decide (i ≥ 1) && data.getD i 0 != data.getD (i - 1) 0)
+      (List.range data.length)) ++ [data.length]).zip
+      (0 :: (List.filter (fun i => decide (i ≥ 1) && data.getD i 0 != data.getD (i - 1) 0)
+      (List.range data.length)) ++ [data.length]).tail) = consec (infl data) := by
+  simp [consec, infl, changePoints]
+
+/-- **wrap-around, nothing filtered** (`min_len ≤ 1`, no `max_len`, `only_nonzero = False`): the code returns the
+    specification - the runs as they are when the two ends differ or there is one run, otherwise the last and the
+    first run joined into one block placed first, followed by the runs in between -/
+theorem blocks_wrap_unfiltered (data : List Int) (hd : data ≠ []) (minLen : Nat) (hm : minLen ≤ 1) :
+    blocks data minLen none true false = blocksSpec data minLen none true false := by
+  have hall : ∀ se ∈ consec (infl data), minLen ≤ se.2 - se.1 := by
+    intro se hse; have := (run_bounds hd hse).1; omega
+  have hfilt : (consec (infl data)).filter (fun se => (decide (minLen ≤ se.2 - se.1) && true) && (!false || data.getD se.1 0 != 0)) = consec (infl data) := by
+    rw [List.filter_eq_self]
+    intro se hse; simp [hall se hse]
+  have hR : List.map (fun se => rangeFromTo se.fst se.snd) (consec (infl data)) = runsOf data := rfl
+  simp only [blocks, blocksSpec, pairs_eq, Bool.not_true, Bool.false_eq_true, if_false, Bool.true_and, hfilt, hR,
+    Bool.false_and]
+  obtain ⟨e0, he0, hhead⟩ := runsOf_head data hd
+  obtain ⟨s, hs, hlast⟩ := runsOf_last data hd
+  -- all runs are non-empty, so nothing is filtered on the specification side either
+  have hpos : ∀ r ∈ runsOf data, minLen ≤ r.length := by
+    intro r hr
+    obtain ⟨se, hse, rfl⟩ := List.mem_map.mp hr
+    rw [rangeFromTo_length]; exact hall se hse
+  have hspecfilt : ∀ l : List (List Nat), (∀ r ∈ l, minLen ≤ r.length) →
+      l.filter (fun r => decide (minLen ≤ r.length) && (!false || data.getD (r.headD 0) 0 != 0)) = l := by
+    intro l hl; rw [List.filter_eq_self]; intro r hr; simp [hl r hr]
+  by_cases hends : (data.head? != data.getLast?) = true
+  · have hne : (data.head? == data.getLast?) = false := by simpa [bne] using hends
+    simp only [hends, if_true, hne, Bool.and_false, Bool.false_eq_true, if_false]
+    symm; rw [List.filter_eq_self]; intro r hr; simp [hpos r hr]
+  · have heq : (data.head? == data.getLast?) = true := by simpa [bne] using hends
+    simp only [hends, Bool.false_eq_true, if_false, heq, Bool.and_true]
+    by_cases hone : (runsOf data).length = 1
+    · have h1 := runsOf_one data hd hone
+      have : ((runsOf data).length == 1 && ((runsOf data).headD []).length == data.length) = true := by
+        rw [h1]; simp [rangeFromTo_length]
+      simp only [this, if_true]
+      have : decide ((runsOf data).length > 1) = false := by simp [hone]
+      simp only [this, Bool.false_eq_true, if_false]
+      symm; rw [List.filter_eq_self]; intro r hr; simp [hpos r hr]
+    · have hlen : (runsOf data).length > 1 := by
+        have : (runsOf data).length ≠ 0 := by
+          intro h0; rw [List.length_eq_zero_iff] at h0; rw [h0] at hhead; simp at hhead
+        omega
+      have c1 : ((runsOf data).length == 1 && ((runsOf data).headD []).length == data.length) = false := by
+        simp [hone]
+      obtain ⟨t, ht⟩ : ∃ t, rangeFromTo 0 e0 = 0 :: t := by
+        have := rangeFromTo_head? he0
+        cases hr : rangeFromTo 0 e0 with
+        | nil => rw [hr] at this; simp at this
+        | cons b t => rw [hr] at this; simp at this; exact ⟨t, by rw [this]⟩
+      have hl2 : (rangeFromTo s data.length).getLast? = some (data.length - 1) := rangeFromTo_getLast? hs
+      simp only [c1, Bool.false_eq_true, if_false, hhead, hlast, ht, hl2, BEq.rfl, Bool.and_self, if_true,
+        decide_eq_true hlen]
+      symm; rw [List.filter_eq_self]
+      intro r hr
+      have hge : minLen ≤ r.length := by
+        rcases List.mem_cons.mp hr with rfl | hr
+        · -- the joined block is non-empty
+          have : (runsOf data).headD [] = rangeFromTo 0 e0 := by
+            rw [List.headD_eq_head?_getD, hhead]; rfl
+          rw [List.length_append, this, rangeFromTo_length]; omega
+        · exact hpos r (List.mem_of_mem_tail ((List.dropLast_sublist _).subset hr))
+      simp [hge]
+
+end TV.Grouping
